@@ -11,15 +11,35 @@ Counts: open descriptors (/proc/self/fd), live threads (threading.enumerate()), 
 zombies (/proc scan for ppid == self, the tracker processes aside), named semaphores created by this
 process (/dev/shm/sem.loky-<pid>-*).  Every wait has a deadline; a missed deadline is {"infra": ...} and
 exit status 3.
+
+What the caller keeps.  A lifecycle may submit extra tasks (`"futs"`: a result, a task exception, arguments
+that cannot be pickled, a result that cannot be pickled) and, with `"keep": true`, the caller KEEPS their
+futures — and those of the tasks that were running when the pool was killed or broke — in a list that lives
+until the end of the process, over all repetitions: user-held futures must not pin anything of a shut-down,
+released executor.  Futures are waited for with `concurrent.futures.wait` and never `result()`-ed: raising the
+stored exception would append the *caller's* frames (and through them the caller's local variables, the
+executor included) to its traceback, which is not the library's doing.
+
+Oversized queued tasks.  `"big": j` submits j tasks whose pickled arguments are far larger than a pipe buffer
+while every worker is busy: nobody reads the call queue, the QueueFeederThread blocks in the middle of
+`send_bytes` (positive signal: the call pipe holds >= 32 KiB unread).  The pool is then torn down by the
+lifecycle's route (worker SIGKILLed, shutdown(kill_workers=True), get_reusable_executor(kill_workers=True), or
+a graceful shutdown after the short busy tasks end).  A feeder thread that is still inside a pipe write when
+the executor has completed shutdown and no child process is left can never be served (no reader exists but
+this process, which does not read): it is not waited for but counted as a live thread.
 """
+import array
+import fcntl
 import gc
 import glob
 import json
 import os
 import signal
 import sys
+import termios
 import threading
 import time
+from concurrent.futures import wait as wait_futures
 
 DEADLINE = float(os.environ.get("VERIF_E3_DEADLINE", "60"))
 
@@ -69,11 +89,44 @@ def fd_table():
     return tab
 
 
+def _in_pipe_write(thread):
+    """the thread is inside Connection.send_bytes (blocked in, or about to return from, a write on a pipe)"""
+    f = sys._current_frames().get(thread.ident)
+    while f is not None:
+        if f.f_code.co_name in ("_send", "_send_bytes", "send_bytes") and "connection" in f.f_code.co_filename:
+            return True
+        f = f.f_back
+    return False
+
+
+def _stranded(thread):
+    """positive signal that a feeder thread of a closed queue will never end: it is inside a pipe write, no child
+    process of ours exists (the workers, the only other holders of the read end, are gone) and it has not moved
+    for a second.  Such a thread is a leaked thread, not a missed deadline."""
+    def live_children():
+        trk = tracker_pids()
+        return [p for p, st in children() if p not in trk and st not in ("Z", "X")]
+    for _ in range(4):
+        if not thread.is_alive() or not _in_pipe_write(thread) or live_children():
+            return False
+        time.sleep(0.25)
+    return thread.is_alive()
+
+
 def quiesce():
-    """positive signals only: feeder threads of closed queues have ended, garbage is collected"""
-    from .tt_member import quiesce as q
-    if q(DEADLINE):
-        raise InfraError("a QueueFeederThread of a closed queue did not end")
+    """positive signals only: feeder threads of closed queues have ended (or are stranded for good), garbage is
+    collected"""
+    from .tt_member import _closing
+    t0 = time.time()
+    while True:
+        busy = [t for t in threading.enumerate() if t.name == "QueueFeederThread" and _closing(t)]
+        busy = [t for t in busy if not _stranded(t)]
+        if not busy:
+            break
+        if time.time() - t0 > DEADLINE:
+            raise InfraError("a QueueFeederThread of a closed queue did not end")
+        time.sleep(0.005)
+    gc.collect()
 
 
 def counts(detail=False):
@@ -131,6 +184,60 @@ def join_manager(th, what):
             raise InfraError(f"manager thread still alive after {what}")
 
 
+KEPT = []          # what the caller keeps for the rest of the process: futures of completed lifecycles
+BIG = 4 * 1024 * 1024
+
+
+def keep(spec, futs):
+    if spec.get("keep"):
+        KEPT.extend(futs)
+
+
+def settle(futs, what):
+    """wait for futures without raising their exceptions in this frame"""
+    if futs:
+        done, pending = wait_futures(futs, timeout=DEADLINE)
+        if pending:
+            raise InfraError(f"{len(pending)} future(s) of {what} not resolved")
+
+
+def extras(ex, spec):
+    """the extra tasks of a lifecycle: each future is resolved before the lifecycle goes on"""
+    from .c20_tasks import Unsendable, t_badres, t_len, t_raise
+    futs = []
+    for kind in spec.get("futs", []):
+        if kind == "ok":
+            futs.append(ex.submit(t_len, b"abc"))
+        elif kind == "exc":
+            futs.append(ex.submit(t_raise, "boom"))
+        elif kind == "badarg":
+            futs.append(ex.submit(t_len, Unsendable()))
+        elif kind == "badres":
+            futs.append(ex.submit(t_badres))
+        else:
+            raise InfraError(f"unknown future kind {kind}")
+    settle(futs, "the extra tasks")
+    keep(spec, futs)
+
+
+def pipe_unread(conn):
+    buf = array.array("i", [0])
+    fcntl.ioctl(conn.fileno(), termios.FIONREAD, buf)
+    return buf[0]
+
+
+def submit_big(ex, spec):
+    """oversized tasks behind busy workers: returns their futures once the feeder thread is mid-send"""
+    from .c20_tasks import t_len
+    j = spec.get("big", 0)
+    if not j:
+        return []
+    futs = [ex.submit(t_len, b"x" * BIG) for _ in range(j)]
+    reader = ex._call_queue._reader
+    wait_until(lambda: pipe_unread(reader) >= 32768, "the feeder thread to block in the middle of a large task")
+    return futs
+
+
 def lifecycle(spec, base, observe):
     """run one lifecycle; returns the deltas at the observation points (only when `observe`)"""
     from loky import ProcessPoolExecutor, get_reusable_executor
@@ -152,6 +259,7 @@ def lifecycle(spec, base, observe):
         ex = get_reusable_executor(max_workers=n, timeout=300, kill_workers=True)
         start_all(ex, n)
         look("started")
+        extras(ex, spec)
         ex2 = get_reusable_executor(max_workers=m, timeout=300)
         if ex2 is not ex:
             raise InfraError("resize replaced the executor")
@@ -166,11 +274,32 @@ def lifecycle(spec, base, observe):
         del ex, ex2, th
         look("end")
         return obs
+    if kind == "rekill":
+        # busy workers (and oversized tasks behind them), then a request with other arguments and kill_workers=True
+        ex = get_reusable_executor(max_workers=n, timeout=300, kill_workers=True)
+        start_all(ex, n)
+        look("started")
+        extras(ex, spec)
+        th = ex._executor_manager_thread
+        futs = [ex.submit(t_sleep, 60) for _ in range(n)]
+        time.sleep(0.1)
+        futs += submit_big(ex, spec)
+        ex2 = get_reusable_executor(max_workers=n, timeout=299, kill_workers=True)
+        if ex2 is ex:
+            raise InfraError("changed arguments did not replace the executor")
+        join_manager(th, "the replacement with kill_workers=True")
+        settle(futs, "the killed executor")
+        keep(spec, futs)
+        ex2.shutdown(wait=True)
+        del ex, ex2, th, futs
+        look("end")
+        return obs
     timeout = 0.3 if kind == "idle" else None
     ex = ProcessPoolExecutor(n, timeout=timeout)
     look("ctor")
     if kind == "idle":
         pids = start_all(ex, n)
+        extras(ex, spec)
         wait_until(lambda: len(ex._processes) == 0, "every worker to idle-time-out")
         workers_gone(pids)
         look("mid")
@@ -180,39 +309,49 @@ def lifecycle(spec, base, observe):
         look("started")
         if spec.get("nested"):
             list(ex.map(t_nested, range(n)))
+        extras(ex, spec)
         th = ex._executor_manager_thread
         if kind == "clean":
+            futs = []
+            if spec.get("big"):
+                # graceful: the busy tasks are short, the oversized ones are served after them
+                futs = [ex.submit(t_sleep, 0.3) for _ in range(n)]
+                futs += submit_big(ex, spec)
             if spec.get("ctx"):
                 with ex:
                     list(ex.map(t_noop, range(3)))
             else:
                 ex.shutdown(wait=True)
+            settle(futs, "the graceful shutdown")
+            keep(spec, futs)
+            del futs
         elif kind == "kill":
-            futs = [ex.submit(t_sleep, 60) for _ in range(spec.get("busy", 0))]
+            busy = n if spec.get("big") else spec.get("busy", 0)
+            futs = [ex.submit(t_sleep, 60) for _ in range(busy)]
             if futs:
                 time.sleep(0.1)
+            futs += submit_big(ex, spec)
             ex.shutdown(wait=True, kill_workers=True)
+            settle(futs, "shutdown(kill_workers=True)")
+            keep(spec, futs)
             del futs
         elif kind == "broken":
             if spec.get("how") == "sigkill":
                 futs = [ex.submit(t_sleep, 60) for _ in range(n)]
                 time.sleep(0.2)
+                futs += submit_big(ex, spec)
                 os.kill(sorted(ex._processes)[0], signal.SIGKILL)
-                for f in futs:
-                    try:
-                        f.result(timeout=DEADLINE)
-                    except Exception:
-                        pass
-                del futs, f
+                settle(futs, "the broken pool")
+                if any(f.exception() is None for f in futs):
+                    raise InfraError("a task of the killed pool returned")
+                keep(spec, futs)
+                del futs
             else:
                 fut = ex.submit(t_osexit, 3)
-                try:
-                    fut.result(timeout=DEADLINE)
+                settle([fut], "the broken pool")
+                if fut.exception() is None:
                     raise InfraError("the crashing task returned")
-                except InfraError:
-                    raise
-                except Exception:
-                    pass
+                keep(spec, [fut])
                 del fut
             join_manager(th, "the pool broke")
             look("mid")
